@@ -188,6 +188,7 @@ pub fn execute(check: &str, plan: Plan, want_log: bool) -> RunResult {
     add("stall", stalls);
     add("slow_handler_stall_seconds", hooks::long_stalls());
     add("push_endpoint_failure", facts.post_failures);
+    add("push_body_broken", probes.get("push_body_broken_sent").cloned().unwrap_or(0));
     add("nack", facts.nacks);
     add("delete_subscription", facts.deletes_sub);
     add("delete_topic", facts.deletes_topic);
